@@ -32,13 +32,17 @@
 
    3. Non-vacuity: the table-driven family of Table.v / TableWf.v (instances with t_wf ti C) meets every premise of the
       theorems above (section TableDiagram: table_S1 .. table_C07), and on the concrete instance ex_ti (optimum 12):
-          ex_S1   Relaxed, width 1: the diagram is not exact and its best value is >= 12 (it is 16)
+          ex_S1   Relaxed, width 1: the diagram is not exact (ex_relaxed1_inexact) and its best value is >= 12
           ex_S3   every cut-set node whose exact best completion is o has an upper bound >= o
           ex_S4   some cut-set node has an exact best completion of exactly 12, and its bound is >= 12
-          ex_S2_truthful   Relaxed, width 3: the diagram is exact and its best exact value is 12
+          ex_S2_truthful   Relaxed, width 2: the diagram says it is exact and its best exact value is 12
           ex_S2_mode       Exact mode, width 1: the best value is 12
-          ex_C07  Restricted, width 1: the best value (9) is the value of a complete feasible run, and 9 <= 12
-      The compilations themselves are evaluated by vm_compute; the inequalities / equalities come from the theorems.
+          ex_C07  Restricted, width 1, cutoff 5 (does not fire): the best value is the value of a complete feasible run
+                  whose reversed decisions are the best solution, and it is <= 12
+      On ex_ti the bounds happen to be tight (both 12); a second instance ex2_ti (optimum 7) shows strict gaps: the relaxed
+      diagram of width 1 says 8, the restricted one 3 (ex2_shape), with ex2_S1 : 7 <= 8, ex2_S4, ex2_C07 : 3 <= 7 by the
+      theorems.  The compilations themselves are evaluated by vm_compute (always in the GOAL, so that the kernel replays
+      them with the VM); the inequalities / equalities come from the theorems.
 
    Stdlib only, no axioms (Print Assumptions at the end). *)
 Require Import DDO.Base DDO.Fringe DDO.DP DDO.Cache DDO.Dom DDO.Mdd DDO.MddStruct DDO.MddExact DDO.Solver DDO.SolverProofs.
@@ -452,13 +456,14 @@ Section TableDiagram.
   Proof. revert tb tb2 c ds polls m v. c07_premises @C07_best_exact_lower_bound. Qed.
 End TableDiagram.
 
+
 (* ================================================================== 4. concrete compilations
    ex_ti (TableWf.v): 3 variables, optimum 12.  Compilations from the root sub-problem, CleanLEL, lower bound IMIN, no
    cache, no dominance rule, tie-breaks 0 0; the diagrams are computed by vm_compute, the facts come from the theorems. *)
-Definition ex_inp (ti : tinst) (ct : comptype) (w cutoff : nat) : @cinput tstate :=
-  tb_input ti CleanLEL ct w IMIN false false cutoff (t_root ti).
-Definition ex_compile (ti : tinst) (ct : comptype) (w cutoff : nat) : @mdd tstate * outcome :=
-  compile tstate_eqb (ex_inp ti ct w cutoff) 0 0 (tb_cache_init ti) (tb_dom_init ti) 0.
+(* notations, not definitions: the statements below are then syntactically instances of the theorems *)
+Notation ex_inp ti ct w cutoff := (tb_input ti CleanLEL ct w IMIN false false cutoff (t_root ti)) (only parsing).
+Notation ex_compile ti ct w cutoff :=
+  (compile tstate_eqb (ex_inp ti ct w cutoff) 0 0 (tb_cache_init ti) (tb_dom_init ti) 0) (only parsing).
 Definition ex_m (ti : tinst) (ct : comptype) (w cutoff : nat) : @mdd tstate := fst (ex_compile ti ct w cutoff).
 
 Lemma ex_vstar ct w k : vstar (ex_inp ex_ti ct w k) = Some 12.
@@ -485,7 +490,7 @@ Proof. vm_compute. repeat split; reflexivity. Qed.
 Example ex_S1 :
   exists b, dd_best_value (ex_inp ex_ti Relaxed 1 0) (ex_m ex_ti Relaxed 1 0) = Some b /\ 12 <= b.
 Proof.
-  apply (table_S1 ex_ti 7 ex_wf CleanLEL (or_introl eq_refl) Relaxed 1 (le_n 1) IMIN 0 0 _ _ 0 _ 12 ex_relaxed1
+  apply (table_S1 ex_ti 7 ex_wf CleanLEL (or_introl eq_refl) Relaxed 1 (le_n 1) IMIN 0 0 (tb_cache_init ex_ti) (tb_dom_init ex_ti) 0 (ex_m ex_ti Relaxed 1 0) 12 ex_relaxed1
            (or_introl eq_refl) (ex_vstar Relaxed 1 0)).
   vm_compute. reflexivity.
 Qed.
@@ -496,10 +501,16 @@ Example ex_S3 : forall sp o,
   oadd (sp_value sp) (H (t_problem ex_ti) (sp_depth sp) (sp_state sp)) = Some o -> o <= sp_ub sp.
 Proof.
   intros sp o Hin Ho.
-  apply (table_S3 ex_ti 7 ex_wf CleanLEL (or_introl eq_refl) Relaxed 1 (le_n 1) IMIN 0 0 _ _ 0 _ sp o ex_relaxed1
-           eq_refl ex_relaxed1_inexact Hin Ho).
-  (* o > IMIN: o is one of the two computed values 4, 12 *)
-  vm_compute in Hin. destruct Hin as [<-|[<-|[]]]; vm_compute in Ho; inversion Ho; subst o; vm_compute; reflexivity.
+  apply (table_S3 ex_ti 7 ex_wf CleanLEL (or_introl eq_refl) Relaxed 1 (le_n 1) IMIN 0 0 (tb_cache_init ex_ti) (tb_dom_init ex_ti) 0
+           (ex_m ex_ti Relaxed 1 0) sp o ex_relaxed1 eq_refl ex_relaxed1_inexact Hin Ho).
+  (* o > IMIN, by an executable check over the (two) cut-set nodes.  NB: no [vm_compute in H] anywhere in this file:
+     conversions in hypotheses are re-checked by the kernel's lazy machine, which is hopeless on a compilation *)
+  assert (Hchk : forallb (fun sp => match oadd (sp_value sp) (H (t_problem ex_ti) (sp_depth sp) (sp_state sp)) with
+                                    | Some o => o >? IMIN | None => true end)
+                         (drain_cutset (ex_inp ex_ti Relaxed 1 0) (ex_m ex_ti Relaxed 1 0)) = true)
+    by (vm_compute; reflexivity).
+  rewrite forallb_forall in Hchk. specialize (Hchk sp Hin). cbv beta in Hchk. rewrite Ho in Hchk.
+  apply Z.gtb_lt in Hchk. lia.
 Qed.
 
 (* S4: some cut-set node attains the optimum 12 *)
@@ -507,10 +518,10 @@ Example ex_S4 :
   exists sp, In sp (drain_cutset (ex_inp ex_ti Relaxed 1 0) (ex_m ex_ti Relaxed 1 0)) /\
     oadd (sp_value sp) (H (t_problem ex_ti) (sp_depth sp) (sp_state sp)) = Some 12 /\ 12 <= sp_ub sp.
 Proof.
-  apply (table_S4 ex_ti 7 ex_wf CleanLEL (or_introl eq_refl) Relaxed 1 (le_n 1) IMIN 0 0 _ _ 0 _ 12 ex_relaxed1
+  apply (table_S4 ex_ti 7 ex_wf CleanLEL (or_introl eq_refl) Relaxed 1 (le_n 1) IMIN 0 0 (tb_cache_init ex_ti) (tb_dom_init ex_ti) 0 (ex_m ex_ti Relaxed 1 0) 12 ex_relaxed1
            eq_refl ex_relaxed1_inexact (ex_vstar Relaxed 1 0)).
   - vm_compute. reflexivity.
-  - intros e He. vm_compute in He. discriminate.
+  - intros e He. rewrite (proj1 (proj2 (proj2 ex_relaxed1_shape))) in He. discriminate.
 Qed.
 
 (* ---- Relaxed, width 2: the diagram says it is exact (an exact best path), so S2 applies *)
@@ -523,8 +534,8 @@ Example ex_S2_truthful :
 Proof.
   assert (Hex : dd_is_exact (ex_m ex_ti Relaxed 2 0) = true) by (vm_compute; reflexivity).
   split; [exact Hex|].
-  apply (table_S2_truthful ex_ti 7 ex_wf CleanLEL (or_introl eq_refl) Relaxed 2 (le_S 1 1 (le_n 1)) IMIN 0 0 _ _ 0 _ 12
-           ex_relaxed2 Hex (ex_vstar Relaxed 2 0)).
+  apply (table_S2_truthful ex_ti 7 ex_wf CleanLEL (or_introl eq_refl) Relaxed 2 (le_S 1 1 (le_n 1)) IMIN 0 0 (tb_cache_init ex_ti) (tb_dom_init ex_ti) 0
+           (ex_m ex_ti Relaxed 2 0) 12 ex_relaxed2 Hex (ex_vstar Relaxed 2 0)).
   vm_compute. reflexivity.
 Qed.
 
@@ -534,8 +545,8 @@ Proof. vm_compute. reflexivity. Qed.
 
 Example ex_S2_mode : dd_best_value (ex_inp ex_ti Exact 1 0) (ex_m ex_ti Exact 1 0) = Some 12.
 Proof.
-  apply (table_S2_mode ex_ti 7 ex_wf CleanLEL (or_introl eq_refl) Exact 1 (le_n 1) IMIN 0 0 _ _ 0 _ 12
-           ex_exact1 eq_refl (ex_vstar Exact 1 0)).
+  apply (table_S2_mode ex_ti 7 ex_wf CleanLEL (or_introl eq_refl) Exact 1 (le_n 1) IMIN 0 0 (tb_cache_init ex_ti) (tb_dom_init ex_ti) 0
+           (ex_m ex_ti Exact 1 0) 12 ex_exact1 eq_refl (ex_vstar Exact 1 0)).
   vm_compute. reflexivity.
 Qed.
 
@@ -551,11 +562,11 @@ Example ex_C07 : forall v,
                 dd_best_solution (ex_inp ex_ti Restricted 1 5) (ex_m ex_ti Restricted 1 5) = Some (rev dl).
 Proof.
   intros v Hv. split.
-  - destruct (table_C07 ex_ti 7 ex_wf CleanLEL (or_introl eq_refl) Restricted 1 (le_n 1) IMIN 5 0 0 _ _ 0 _ v
-                ex_restricted1 (or_introl eq_refl) Hv) as (o & Ho & Hle).
+  - destruct (table_C07 ex_ti 7 ex_wf CleanLEL (or_introl eq_refl) Restricted 1 (le_n 1) IMIN 5 0 0 (tb_cache_init ex_ti) (tb_dom_init ex_ti) 0
+                (ex_m ex_ti Restricted 1 5) v ex_restricted1 (or_introl eq_refl) Hv) as (o & Ho & Hle).
     rewrite (ex_vstar Restricted 1 5) in Ho. inversion Ho; subst o. exact Hle.
-  - exact (table_C07_feasible ex_ti 7 ex_wf CleanLEL (or_introl eq_refl) Restricted 1 (le_n 1) IMIN 5 0 0 _ _ 0 _ v
-             ex_restricted1 (or_introl eq_refl) Hv).
+  - exact (table_C07_feasible ex_ti 7 ex_wf CleanLEL (or_introl eq_refl) Restricted 1 (le_n 1) IMIN 5 0 0 (tb_cache_init ex_ti) (tb_dom_init ex_ti) 0
+             (ex_m ex_ti Restricted 1 5) v ex_restricted1 (or_introl eq_refl) Hv).
 Qed.
 
 (* ---- a second instance on which neither bound is tight: x0 = 0 pays 3 now, x0 = 1 pays 2 now and 5 at the end.
@@ -582,6 +593,7 @@ Proof. vm_compute. reflexivity. Qed.
 Example ex2_shape :
   dd_is_exact (ex_m ex2_ti Relaxed 1 0) = false /\
   dd_best_value (ex_inp ex2_ti Relaxed 1 0) (ex_m ex2_ti Relaxed 1 0) = Some 8 /\
+  dd_best_exact_value (ex_inp ex2_ti Relaxed 1 0) (ex_m ex2_ti Relaxed 1 0) = None /\
   dd_best_value (ex_inp ex2_ti Restricted 1 0) (ex_m ex2_ti Restricted 1 0) = Some 3 /\
   map (fun sp => (sp_state sp, sp_value sp, sp_depth sp, sp_ub sp))
       (drain_cutset (ex_inp ex2_ti Relaxed 1 0) (ex_m ex2_ti Relaxed 1 0)) = [([0], 3, 1%nat, 8); ([1], 2, 1%nat, 7)].
@@ -589,7 +601,7 @@ Proof. vm_compute. repeat split; reflexivity. Qed.
 
 Example ex2_S1 : exists b, dd_best_value (ex_inp ex2_ti Relaxed 1 0) (ex_m ex2_ti Relaxed 1 0) = Some b /\ 7 <= b.
 Proof.
-  apply (table_S1 ex2_ti 5 ex2_wf CleanLEL (or_introl eq_refl) Relaxed 1 (le_n 1) IMIN 0 0 _ _ 0 _ 7 ex2_relaxed1
+  apply (table_S1 ex2_ti 5 ex2_wf CleanLEL (or_introl eq_refl) Relaxed 1 (le_n 1) IMIN 0 0 (tb_cache_init ex2_ti) (tb_dom_init ex2_ti) 0 (ex_m ex2_ti Relaxed 1 0) 7 ex2_relaxed1
            (or_introl eq_refl) (ex2_vstar Relaxed 1 0)).
   vm_compute. reflexivity.
 Qed.
@@ -598,18 +610,18 @@ Example ex2_S4 :
   exists sp, In sp (drain_cutset (ex_inp ex2_ti Relaxed 1 0) (ex_m ex2_ti Relaxed 1 0)) /\
     oadd (sp_value sp) (H (t_problem ex2_ti) (sp_depth sp) (sp_state sp)) = Some 7 /\ 7 <= sp_ub sp.
 Proof.
-  apply (table_S4 ex2_ti 5 ex2_wf CleanLEL (or_introl eq_refl) Relaxed 1 (le_n 1) IMIN 0 0 _ _ 0 _ 7 ex2_relaxed1
+  apply (table_S4 ex2_ti 5 ex2_wf CleanLEL (or_introl eq_refl) Relaxed 1 (le_n 1) IMIN 0 0 (tb_cache_init ex2_ti) (tb_dom_init ex2_ti) 0 (ex_m ex2_ti Relaxed 1 0) 7 ex2_relaxed1
            eq_refl (proj1 ex2_shape) (ex2_vstar Relaxed 1 0)).
   - vm_compute. reflexivity.
-  - intros e He. vm_compute in He. discriminate.
+  - intros e He. rewrite (proj1 (proj2 (proj2 ex2_shape))) in He. discriminate.
 Qed.
 
 Example ex2_C07 : forall v,
   dd_best_value (ex_inp ex2_ti Restricted 1 0) (ex_m ex2_ti Restricted 1 0) = Some v -> v <= 7.
 Proof.
   intros v Hv.
-  destruct (table_C07 ex2_ti 5 ex2_wf CleanLEL (or_introl eq_refl) Restricted 1 (le_n 1) IMIN 0 0 0 _ _ 0 _ v
-              ex2_restricted1 (or_introl eq_refl) Hv) as (o & Ho & Hle).
+  destruct (table_C07 ex2_ti 5 ex2_wf CleanLEL (or_introl eq_refl) Restricted 1 (le_n 1) IMIN 0 0 0 (tb_cache_init ex2_ti) (tb_dom_init ex2_ti) 0
+              (ex_m ex2_ti Restricted 1 0) v ex2_restricted1 (or_introl eq_refl) Hv) as (o & Ho & Hle).
   rewrite (ex2_vstar Restricted 1 0) in Ho. inversion Ho; subst o. exact Hle.
 Qed.
 
